@@ -370,7 +370,7 @@ Theorem jsr_literal_route_wins w fin req r1 r2 caps f2 :
 Proof.
   intros Hin1 Hm1 Hf1 Hp1 Hdom Hsel.
   set (l := jsr_select_routes O w fin) in *.
-  set (c1 := {| rc_route := r1; rc_matches := S (List.length caps);
+  set (c1 := {| rc_route := r1; rc_matches := S (List.length caps) + pe_groups (path_expression (r_rel r1));
                 rc_literal := pe_literal (path_expression (r_rel r1));
                 rc_nondef := pe_vars (path_expression (r_rel r1)); rc_path := route_path w r1 |}).
   assert (Hc1 : In c1 l).
